@@ -200,6 +200,58 @@ def run_schedule(ctx, rng, nthr, nops, **gen_kw):
     return case, reqs, impl, mon, info, excs
 
 
+def adjust_vs_send(ctx, rng, batches):
+    """Statement-level schedule: the transport thread's `_window_adjust` is stopped just before it takes the channel
+    lock (sys.settrace gate), another thread's send runs to completion, the adjuster resumes; then the window is used
+    up.  On code that touches out_window_size only under the lock this equals [send; adjust]."""
+    for W, n, k in ((5000, 1000, 2000), (32768, 100, 10000), (4096, 4294967295, 4032), (100, 64, 100), (8000, 0, 8000),
+                    (rng.choice([3000, 20000]), rng.choice([1, 5000]), rng.choice([1, 2999]))):
+        for ext in (0, 1):
+            rig = lib_chan.Rig(32768, W, 32768, 3, adjust_gate=True)
+            mon = WireMonitor(W, 32768)
+            reqs = ["init 32768 %d 32768 3 0" % W]
+            impl = [rig.view()]
+            gated = False
+
+            def step(op, model=None, compare=True):
+                rig.do(op)
+                mon.observe(rig.wire)
+                reqs.append(op if model is None else model)
+                impl.append(rig.view() if compare else "*")
+
+            try:
+                mon.granted += n
+                step("gadjust 2 %d" % n, model="nop", compare=False)
+                gated = rig.threads[2].state == "stmtgate"
+                step("send 0 %d %d" % (k, ext), compare=not gated)
+                if rig.threads[0].state == "hold":
+                    step("emit 0", compare=not gated)
+                if gated:
+                    step("gate 2", model="adjust %d" % n)
+                else:
+                    reqs[1] = "adjust %d" % n      # the gate was not reached: the adjust simply ran first
+                step("mode n")
+                for _ in range(40):
+                    step("send 1 40000 %d" % ext)
+                    if rig.threads[1].state == "hold":
+                        step("emit 1")
+                    else:
+                        break
+            finally:
+                rig.teardown()
+            case = {"scenario": "window-adjust stopped before its lock region while a send completes",
+                    "real_ops": ["gadjust 2 %d (stopped at the gate before self.lock.acquire())" % n,
+                                 "send 0 %d %d" % (k, ext), "emit 0", "gate 2 (adjuster resumes)", "mode n",
+                                 "send 1 40000 / emit 1 … until the window is used up"],
+                    "peer_window": W, "adjust": n, "send": k, "gate_taken": gated, "schedule": reqs[1:],
+                    "wire": rig.wire[:40]}
+            ctx.case(("adjust-vs-send", W, n, k, ext), True)
+            ctx.dist("adjust-vs-send-scenarios")
+            if mon.problem:
+                ctx.fail(mon.problem[0] + ":window-adjust-lost-update", case, mon.problem[1])
+            batches.append((case, reqs, impl))
+
+
 def free_running(ctx, rng):
     """several real writer threads against a real condition variable; a peer thread hands out window"""
     import paramiko.channel as chmod
@@ -332,6 +384,12 @@ def run(ctx):
         "def sanitise_is_clamp_min_max : Bool := %s\n"
         "end PV.Generated.C19\n" % ((common.MIN_PACKET_SIZE, common.MAX_WINDOW_SIZE, common.MIN_WINDOW_SIZE)
                                       + clamp_facts())))
+    import paramiko.channel as chmod
+    from pv import lib_chanlock
+    sites, notifies = lib_chanlock.channel_tables(chmod.Channel)
+    accesses = lib_chanlock.window_accesses(chmod.Channel)
+    ctx.write_generated("ChanLock", lib_chanlock.lean_tables(sites, notifies, accesses))
+    ctx.extra["out_window_size_accesses"] = ["%s:%s:%s" % (f, k, "locked" if l else "UNLOCKED") for f, k, l in accesses]
     ctx.build(extra_modules=["PV.Model.ChanDriver"])
     rng = ctx.rng
     n_sched = 20000 if ctx.thorough else 4000
@@ -355,6 +413,7 @@ def run(ctx):
         for e in excs[:1]:
             ctx.fail("unexpected-exception:" + e.split(":")[1], case, e)
         batches.append((case, reqs, impl))
+    adjust_vs_send(ctx, rng, batches)
     compare(ctx, "C19", batches)
     for _ in range(60 if ctx.thorough else 20):
         free_running(ctx, rng)
@@ -372,7 +431,9 @@ META = {
               "SSHException (action emitFail) returns nothing to the window: the equation carries the lost bytes "
               "(failed_send_returns_nothing); out_max_packet_size is the clamped value in every reachable state "
               "(max_packet_clamped) and the clamp sits in the source where the model has it (clamp_is_in_the_source, "
-              "constants_eq_generated — AST facts regenerated each run). Tied to channel.py by "
+              "constants_eq_generated — AST facts regenerated each run); every read and write of out_window_size after "
+              "channel open is under self.lock (window_accesses_locked, AST table), which is what makes reserve / "
+              "adjust atomic regions. Tied to channel.py by "
               "step-by-step differential runs of a real Channel under a deterministic lock-region scheduler."),
     "note": ("Atomic regions are the `self.lock` bodies and single _send_user_message calls of channel.py; payloads are "
              "abstracted to lengths; BufferedPipe is abstracted to a byte count (C26 covers it); peer max packet "
